@@ -12,6 +12,7 @@ open Ipv8
 def gatherVal (C : Crypto) (g : Bytes) (tr : Tree) (t : Token) : Atom → Bool
   | .prevLenNe => t.prev.length != g.length
   | .chashLenNe => t.chash.length != g.length
+  | .sigLenNe => t.sig.length != C.sigLen
   | .verify => t.valid C
   | .prevIsGenesis => t.prev == g
   | .prevInElements => hasId C tr.els t.prev
@@ -38,13 +39,14 @@ def gatherAct (C : Crypto) (g : Bytes) (tr : Tree) (t : Token) : Act :=
 def walkVal (C : Crypto) (g : Bytes) (els : List Token) (cur : Token) : Atom → Bool
   | .verify => cur.valid C
   | .chashLenNe => cur.chash.length != g.length
+  | .sigLenNe => cur.sig.length != C.sigLen
   | .prevIsGenesis => cur.prev == g
   | .prevInElements => hasId C els cur.prev
   | _ => false
 
 /-- the path the MODEL's `walk` takes through one iteration -/
 def walkAct (C : Crypto) (g : Bytes) (els : List Token) (cur : Token) : Act :=
-  if !(cur.chash.length == g.length && cur.valid C) then .fail
+  if !(cur.chash.length == g.length && cur.vok C) then .fail
   else if cur.prev == g then .brk
   else match lookup C els cur.prev with
     | none => .fail
